@@ -1568,7 +1568,10 @@ class ReusableRandomGreedyOptimizer(ReusableOptimizer):
     def _deconstruct_tree(self, opt, tree):
         return {
             "path": tree.get_path(),
-            "score": opt.best_flops,
+            # n.b. not ``opt.best_flops``: that is log10(flops), whereas
+            # ``update_from_tree`` scores trees with the objective (log2
+            # based), and 'improved' compares the two
+            "score": self._score_tree(tree),
             # store this for cache compatibility
             "sliced_inds": (),
         }
